@@ -81,11 +81,16 @@ def make_inputs(chk, work, rng, n, nfam=None):
                        env=dict(os.environ, VERIF_KEEP_DIR=str(keep), VERIF_TMP=str(work)))
     if r.returncode != 0:
         raise vlib.Infra("exp_driver failed: " + r.stderr[-500:])
-    files = sorted(keep.glob("*.cdns"))
-    if len(files) < 3 + len(variants):
-        raise vlib.Infra("no input files generated")
+    import re
+    files = sorted(keep.glob("*.cdns"), key=lambda f: tuple(int(x) for x in re.findall(r"\d+", f.name)))
+    # the family files are those of the last len(variants) histories (each history closes exactly one output)
+    fam_first = len(hs) - len(variants)
+    family = [f for f in files if int(re.findall(r"\d+", f.name)[0]) >= fam_first]
+    files = [f for f in files if f not in family]
+    if len(files) < 3 or len(family) != len(variants):
+        raise vlib.Infra(f"input files missing: {len(files)} files, {len(family)} of {len(variants)} family files")
     chk.extra["parameter_neighbour_files"] = [v[0] for v in variants]
-    return files[:len(files) - len(variants)], files[len(files) - len(variants):]
+    return files, family
 
 
 def run_tuple(tools, work, idx, tup, trace):
@@ -156,7 +161,7 @@ def run(tier):
 
     rng = random.Random(chk.seed * 29 + 18)
     work = vlib.scratch("c18")
-    files, family = make_inputs(chk, work, rng, 14 if tier == "quick" else 60, nfam=22 if tier == "quick" else None)
+    files, family = make_inputs(chk, work, rng, 14 if tier == "quick" else 60, nfam=None)
     tools = vlib.build_tools("plain")
     ntuples = 28 if tier == "quick" else 600
     nsh = min(vlib.NCPU, ntuples)
